@@ -162,6 +162,31 @@ func (w *W) exec(task int, op *scen.Op) {
 	case "log":
 		w.execLog(task, op)
 		return
+	case "mutate_group":
+		// a caller-owned group value (Args[0], shared by its ref) is changed between calls: members are added
+		// (Add, or SetValue with one Attr) or the member list is replaced (SetValue with Attrs)
+		if len(op.Args) < 1 {
+			return
+		}
+		v := w.value(&op.Args[0])
+		more := w.attrs(op.Args[1:])
+		switch op.Kind {
+		case "add":
+			if g, ok := v.(interface{ Add(as ...slog.Attr) }); ok {
+				g.Add(more...)
+			}
+		case "setattr":
+			if g, ok := v.(interface{ SetValue(v any) }); ok {
+				for _, a := range more {
+					g.SetValue(a)
+				}
+			}
+		case "setattrs":
+			if g, ok := v.(interface{ SetValue(v any) }); ok {
+				g.SetValue(slog.Attrs(more))
+			}
+		}
+		return
 	case "add_flags":
 		for _, f := range op.S {
 			slog.AddFlags(flagByName(f))
